@@ -28,6 +28,8 @@ def stores_for(ctx, mix, scale=1):
         out.append((pipe.single(gen.render(rng, gen.program(rng))), "a.s", "random"))
     for _ in range(mix.get("handlers", 0) * k):
         out.append((pipe.single(gen.handler_prog(rng)), "a.s", "handlers"))
+    for _ in range(mix.get("loopfn", 0) * k):
+        out.append((pipe.single(gen.loop_fn_prog(rng)), "a.s", "loopfn"))
     for _ in range(mix.get("fold", 0) * k):
         out.append((pipe.single(gen.fold_prog(rng)), "a.s", "fold"))
     for _ in range(mix.get("csrmem", 0) * k):
